@@ -11,6 +11,7 @@ import z3
 
 from mirsym.executor import State
 from mirsym import solve
+from mirsym import executor as X
 from mirsym.values import *
 from . import absgame as A
 from . import boardsym as B
@@ -75,6 +76,21 @@ def step(run, job):
                 run.known_finding('S8 alpha_beta stores a transposition-table entry although a child search was aborted (site %s)' % site)
             else:
                 report(run, q, name, what)
+    # the table as it is left on paths where a nested search was cut: nothing present (it was empty before; this also sees
+    # writes made through a `&mut TTEntry` obtained from get_mut / entry())
+    finals = [s_ for _, s_ in r[1]] if (r is not None and r[0] is X.PATHS) else ([r[1]] if r is not None else [])
+    leftovers = []
+    for s_ in finals:
+        tt = ex.load(s_, ('S', 'board::transposition_table::TRANSPOSITION_TABLE'), ())
+        ab = s_.store.get(('G', 'aborted_below'), False)
+        if isinstance(tt, A.MapV):
+            for k_, (pg, ent) in tt.d.items():
+                leftovers.append(z3.And(zb(s_.guard), zb(ab), zb(pg)))
+    if leftovers:
+        q = run.decide('%s/table-left-empty-after-a-cut' % name, ex.pre + [z3.Or(*leftovers)], kind='smt',
+                       note='after a cut below this node the table holds no entry written by it')
+        if q.verdict == 'sat':
+            report(run, q, name, 'after a nested search was cut short the table is left with an entry for the node')
     for ob, qq in run.check_obligations(ex, name):
         report(run, qq, name, 'panic reachable when the search is cut: %s %s' % (ob.where.split('::')[-1], ob.msg[:80]))
     # vacuity: some insert is reachable at all, and some nested abort is possible
